@@ -13,6 +13,7 @@ differential — and the executable semantics `Spec.zoneExpect` with which the d
 import TzVerif.Model.Find
 import TzVerif.Spec.Lookup
 import TzVerif.Proofs.SpecLookup
+import TzVerif.Proofs.IanaRules
 
 namespace TzVerif.C10
 open TzVerif.Model TzVerif.Proofs
@@ -58,5 +59,16 @@ theorem search_results_in_spec (y mo d h mi s ns : Int) (z : TimeZone) (rs : Lis
   | type t => rw [he] at h2; simp at h2; rw [h2]
   | noAvail => rw [he] at h2; simp at h2
   | outOfRange => rw [he] at h2; simp at h2
+
+/-- Every distinct DST rule found in the footers of the vendored IANA snapshot (`Generated/IanaRules.lean`,
+    regenerated each run and cross-checked against the rules the implementation decodes) satisfies the
+    hypotheses of the partial theorems C04 / C05 / C06 — so those theorems apply to every IANA zone — … -/
+theorem iana_rules_satisfy_hypotheses : ∀ a ∈ Gen.ianaRules, RuleOK a :=
+  iana_rules_ok
+
+/-- … and is accepted by the rule constructor as is. -/
+theorem iana_rules_are_accepted :
+    Gen.ianaRules.all (fun a => (AlternateTime.new a.std a.dst a.dstStart a.dstStartTime a.dstEnd a.dstEndTime) == .ok a) = true :=
+  iana_rules_accepted
 
 end TzVerif.C10
